@@ -655,6 +655,7 @@ def check(run, replay=None):
         cases.append(("indep-dups-lockstep-%d" % r, G.indep_dups(rng_f, C.REPO, docs, lockstep=True)))
         cases.append(("indep-native-bound-%d" % r, G.indep_native(rng_f, rng_f.choice([2, 4]) if run.tier == "quick" else rng_f.choice([2, 4, 8, 16]), True)))
         cases.append(("indep-native-free-%d" % r, G.indep_native(rng_f, rng_f.choice([2, 4]), False)))
+        cases.append(("indep-components-%d" % r, G.indep_components(rng_f, C.REPO, docs, 8, 30)))
     for name, case in cases:
         if "# kind: indep-faulty" in case:
             if not docs:
